@@ -26,6 +26,10 @@ CONSTANTS
     Buffered,       \* TRUE: output frames may carry any number of units (stdio buffering is not part of the property);
                     \* FALSE: one frame per unit (line-buffered stream, one println per unit) - fewer interleavings
     Gaps,           \* "all": every arrival schedule (for scenario generation); "overlap": only the most general one
+    KeepData,       \* TRUE: frames in `sent` carry their data (model checking); FALSE: only their type (trace validation
+                    \* of long outputs: the content is compared when the frame is written, not kept)
+    ExternalProg(_),\* observation of a module that is not one of the abstract ones (trace validation: measured by running
+                    \* the real standalone nano_vm); unused in model checking
     Emit            \* TRUE: print one JSON scenario per initial state ("@@J ")
 
 Clients == 1 .. N
@@ -43,7 +47,8 @@ Standalone(m) ==
       [] m = "many" -> [out |-> "bcd", err |-> "",  exit |-> 0]
       [] m = "fail" -> [out |-> "e",   err |-> "E", exit |-> 1]     \* run-time failure after some output
       [] m = "code" -> [out |-> "f",   err |-> "",  exit |-> 3]     \* main returns non-zero (whatever standalone reports)
-      [] OTHER      -> [out |-> "",    err |-> "",  exit |-> 0]
+      [] OTHER      -> ExternalProg(m)
+NoExternal(m) == [out |-> "", err |-> "", exit |-> 0]
 
 \* ------------------------------------------------------------------ client behaviours
 GoodKinds   == {"exec", "ping", "status"}
@@ -288,7 +293,7 @@ S_ExecStep(c, k) == \* the program prints k more units into its stdio buffer
     /\ UNCHANGED <<sst, rpos, loaded, flushed, sent, ndel, sopen, stat, up, active, crcflag, crcpc>>
 S_Flush(c, ok) ==   \* socket_write_cookie: everything buffered goes out as one OUTPUT frame
     /\ up /\ sst[c] \in {"exec", "flush"} /\ flushed[c] < pos[c]
-    /\ S_Send(c, Frame("out", c, SubSeq(ProgOf(c).out, flushed[c] + 1, pos[c]), 0, TRUE), ok)
+    /\ S_Send(c, Frame("out", c, IF KeepData THEN SubSeq(ProgOf(c).out, flushed[c] + 1, pos[c]) ELSE "", 0, TRUE), ok)
     /\ flushed' = [flushed EXCEPT ![c] = pos[c]]
     /\ UNCHANGED <<sst, rpos, loaded, pos, sopen, stat, active, crcflag, crcpc>>
 S_ExecEnd(c) ==     \* vm_execute() returns
@@ -302,7 +307,7 @@ S_SendErr(c, ok) == \* protocol-level error reply, then the session ends
     /\ UNCHANGED <<rpos, loaded, pos, flushed, sopen, stat, active, crcflag, crcpc>>
 S_SendRtErr(c, ok) ==   \* "Runtime error: ..." exactly as standalone prints it
     /\ up /\ sst[c] = "flush" /\ flushed[c] = pos[c] /\ ProgOf(c).err # ""
-    /\ S_Send(c, Frame("err", c, ProgOf(c).err, 0, TRUE), ok) /\ S_Goto(c, "exit")
+    /\ S_Send(c, Frame("err", c, IF KeepData THEN ProgOf(c).err ELSE "", 0, TRUE), ok) /\ S_Goto(c, "exit")
     /\ UNCHANGED <<rpos, loaded, pos, flushed, sopen, stat, active, crcflag, crcpc>>
 S_SendExit(c, ok) ==
     /\ up /\ ((sst[c] = "flush" /\ flushed[c] = pos[c] /\ ProgOf(c).err = "") \/ sst[c] = "exit")
@@ -312,9 +317,9 @@ S_Pong(c, ok) ==
     /\ up /\ sst[c] = "pong"
     /\ S_Send(c, Frame("pong", c, "", 0, TRUE), ok) /\ S_Goto(c, "cleanup")
     /\ UNCHANGED <<rpos, loaded, pos, flushed, sopen, stat, active, crcflag, crcpc>>
-S_StatusRead(c) ==  \* n = g_active_clients under the mutex
+S_StatusRead(c, n) ==   \* n = g_active_clients under the mutex
     /\ up /\ sst[c] = "status_read"
-    /\ stat' = [stat EXCEPT ![c] = active] /\ S_Goto(c, "status_send")
+    /\ stat' = [stat EXCEPT ![c] = n] /\ S_Goto(c, "status_send")
     /\ UNCHANGED <<rpos, loaded, pos, flushed, sent, ndel, sopen, up, active, crcflag, crcpc>>
 S_StatusSend(c, ok) ==
     /\ up /\ sst[c] = "status_send"
@@ -358,7 +363,7 @@ ExecEnd(c)     == S_ExecEnd(c) /\ UNCHANGED <<scenvars, clientvars>>
 SendErr(c)     == sst[c] \in ErrStates \cup {"flush"} /\ MayWrite(c) /\ (S_SendErr(c, WriteOk(c)) \/ S_SendRtErr(c, WriteOk(c))) /\ UNCHANGED <<scenvars, clientvars>>
 SendExit(c)    == sst[c] \in {"flush", "exit"} /\ MayWrite(c) /\ S_SendExit(c, WriteOk(c)) /\ UNCHANGED <<scenvars, clientvars>>
 Pong(c)        == sst[c] = "pong" /\ MayWrite(c) /\ S_Pong(c, WriteOk(c)) /\ UNCHANGED <<scenvars, clientvars>>
-StatusRead(c)  == S_StatusRead(c) /\ UNCHANGED <<scenvars, clientvars>>
+StatusRead(c)  == S_StatusRead(c, active) /\ UNCHANGED <<scenvars, clientvars>>
 StatusSend(c)  == sst[c] = "status_send" /\ MayWrite(c) /\ S_StatusSend(c, WriteOk(c)) /\ UNCHANGED <<scenvars, clientvars>>
 CloseFd(c)     == S_CloseFd(c) /\ UNCHANGED <<scenvars, clientvars>>
 Cleanup(c)     == S_Cleanup(c) /\ UNCHANGED <<scenvars, clientvars>>
